@@ -273,9 +273,64 @@ def analyse_iterator_discipline(prog, F, W, fn):
 
 
 # ---------------------------------------------------------------------------------------------- run()
+def grid_guard(conds):
+    """for each (m, n) on the small-graph grid: do all (condition, polarity) pairs hold?  conditions are over boost::num_edges / num_vertices
+    calls (any graph) and constants.  Returns dict (m, n) -> bool, or None when a condition is not evaluable"""
+    import itertools
+    res = {}
+    for m, nn in itertools.product(range(0, 8), range(0, 8)):
+        if m > nn * (nn - 1) // 2:
+            continue
+
+        def ev(node):
+            s = node.strip_all()
+            if s.cv is not None and s.k not in ex.CALL_KINDS:
+                return s.cv
+            if s.k == 'CallExpr' and s.callee and s.callee['g'] in ('boost::num_edges', 'boost::num_vertices'):
+                return m if s.callee['name'] == 'num_edges' else nn
+            if s.k == 'BinaryOperator' and len(s.c) == 2:
+                a, b = ev(s.c[0]), ev(s.c[1])
+                if a is None or b is None:
+                    return None
+                return {'<': a < b, '<=': a <= b, '>': a > b, '>=': a >= b, '==': a == b, '!=': a != b,
+                        '+': a + b, '-': a - b, '*': a * b, '&&': bool(a) and bool(b), '||': bool(a) or bool(b)}.get(s.op)
+            if s.k == 'UnaryOperator' and s.op == '!':
+                a = ev(s.c[0])
+                return None if a is None else (not a)
+            return None
+        holds = True
+        for (c, pol) in conds:
+            v = ev(c)
+            if v is None:
+                return None
+            if bool(v) != pol:
+                holds = False
+        res[(m, nn)] = holds
+    return res
+
+
 def analyse_run(prog, F, W, run):
     cfg = run.cfg
     out = run.param_ids[0] if run.param_ids else None
+    # R05e (run): the exact algorithm is run on the spanner unless the spanner provably has no cycle
+    whate = 'the exact phase on the spanner is skipped only when the spanner provably has no cycle'
+    for n in run.walk():
+        if n.k == 'CXXOperatorCallExpr' and n.op == '()' and len(n.c) >= 4 and atom(W.world(n.c[2])) == 'S':
+            conds = [(c, pol) for (c, pol) in ex.ast_conditions(n)]
+            if not conds:
+                F.add('R05e', n, run, whate, 'ok', 'the functor is called unconditionally')
+                continue
+            g = grid_guard(conds)
+            if g is None:
+                F.add('R05e', n, run, whate, 'undecided', 'the call of the exact functor is under `%s`' % conds[0][0].text(40))
+                continue
+            bad = [(m, nn) for (m, nn), holds in sorted(g.items()) if not holds and m > 2]
+            if bad:
+                F.add('R05e', n, run, whate, 'violation',
+                      'the exact phase is skipped for a spanner with m=%d edges and n=%d vertices, which can contain a cycle (a triangle plus isolated '
+                      'vertices / several components): its cycles are silently dropped and the result is not a basis' % bad[0], key='R05e|%s|run-skip' % run.g)
+            else:
+                F.add('R05e', n, run, whate, 'ok', 'skipped only for m <= 2')
     fdefs = field_defs(prog, BASE)
     # R06a: k < 1 rejected before anything is emitted
     what = 'a call with k = 0 throws before anything is emitted (and k >= 1 is accepted)'
